@@ -13,7 +13,7 @@ use crate::par::{self, CallOutcome, Cmd, Final, RunSpec, Watched};
 use crate::recorder::StorageFaults;
 use crate::report::Report;
 use crate::sched;
-use crate::util::{Fnv, HRng};
+use crate::util::{Fnv, HRng, panic_site};
 
 const KINDS: [&str; 13] = [
     "logp_never_finite",
@@ -356,21 +356,100 @@ fn run_fcase(report: &mut Report, c: &FCase, stallcheck: bool) -> bool {
     true
 }
 
+/// A real storage backend on a device that is full: the CSV files of the faulty chains are symbolic links to /dev/full,
+/// so that every write the operating system sees fails with ENOSPC - for a short run that is the flush at
+/// finalisation, for a long one a write in the middle of sampling. The run must end with an error.
+fn csv_device_full(report: &mut Report, seed: u64, idx: u64) {
+    use nuts_rs::{CsvConfig, DiagNutsSettings, Sampler, SamplerWaitResult};
+    report.eval();
+    let mut rng = HRng::new(seed).fork(0xC5F + idx);
+    if !std::path::Path::new("/dev/full").exists() {
+        report.inconclusive("no /dev/full on this system");
+        return;
+    }
+    let num_chains = rng.int_range(1, 4) as u64;
+    let faulty = rng.below(num_chains);
+    let long = idx % 2 == 1;
+    let (num_tune, num_draws) = if long { (20u64, 600u64) } else { (rng.int_range(0, 10) as u64, rng.int_range(1, 12) as u64) };
+    let dim = if long { 12 } else { 2 };
+    let dir = match tempfile::tempdir() {
+        Ok(d) => d,
+        Err(_) => {
+            report.inconclusive("no temporary directory");
+            return;
+        }
+    };
+    let out = dir.path().join("out");
+    let _ = std::fs::create_dir_all(&out);
+    if std::os::unix::fs::symlink("/dev/full", out.join(format!("chain_{faulty}.csv"))).is_err() {
+        report.inconclusive("could not create the symbolic link");
+        return;
+    }
+    let replay = json!({"kind": "csv_device_full", "seed": seed, "idx": idx});
+    let settings: DiagNutsSettings = match serde_json::from_value(par::small_settings(Preset::DiagNuts, num_tune, num_draws, num_chains, rng.next_u64(), &[])) {
+        Ok(s) => s,
+        Err(_) => {
+            report.inconclusive("settings rejected");
+            return;
+        }
+    };
+    let model = crate::dens::VModel::new(Target::iso(dim, 0.2));
+    let r = crate::util::guard(move || -> Result<String, String> {
+        let mut sampler = Sampler::new(model, settings, CsvConfig::new(&out), 4, None).map_err(|e| format!("new: {e:#}"))?;
+        let t0 = std::time::Instant::now();
+        loop {
+            match sampler.wait_timeout(Duration::from_millis(200)) {
+                SamplerWaitResult::Trace(_) => return Ok("trace".into()),
+                SamplerWaitResult::Err(e, _) => return Ok(format!("err: {e:#}")),
+                SamplerWaitResult::Timeout(s) => {
+                    if t0.elapsed() > Duration::from_secs(60) {
+                        return Err("timeout".into());
+                    }
+                    sampler = s;
+                }
+            }
+        }
+    });
+    let mut h = Fnv::new();
+    h.str("csv_device_full").u64(long as u64).u64(num_chains);
+    report.nontrivial(h.finish());
+    match r {
+        Err(p) => report.violation(format!("C13:csv_device_full:client_call_panicked:{}", panic_site(&p)), p, replay),
+        Ok(Err(e)) if e == "timeout" => report.inconclusive("csv run did not finish within 60 s"),
+        Ok(Err(e)) => report.violation("C13:csv_device_full:sampler_not_started".to_string(), e, replay),
+        Ok(Ok(res)) if res == "trace" => report.violation(
+            format!("C13:csv_device_full:failure_reported_as_success:{}", if long { "write_during_sampling" } else { "flush_at_finalisation" }),
+            format!("chain {faulty} of {num_chains} writes to a full device ({} draws, dim {dim}) but wait_timeout returned a trace", num_tune + num_draws),
+            replay,
+        ),
+        Ok(Ok(_)) => report.count("storage_device_errors_surfaced", 1),
+    }
+}
+
 pub fn run(args: &Args, report: &mut Report) {
     report.rule = "cases = preset x fault kind (unrecoverable logp error in one / two / several chains, recoverable logp errors, storage record_sample / \
         finalize / initialize error, Model::math error in a chain / in the controller, init_position error, all 500 initialisations invalid, only the first few initial points invalid) x place \
         (initialisation, first draw, warmup, warmup/sampling boundary, last draw) x faulty chain(s) x num_chains vs num_cores x schedule perturbation x \
-        interleaved user commands (storm, wait, direct abort); distinct = (preset, kind, place, several chains, chains > cores, outcome)".into();
+        interleaved user commands (storm, wait, direct abort, progress polling); plus the real CSV backend writing to a full device (error at the \
+        final flush / in the middle of sampling); distinct = (preset, kind, place, several chains, chains > cores, outcome)".into();
     report.assumptions.push("a direct abort() is only required not to panic or hang; whether it returns Err or a prefix trace is recorded, not judged".into());
     report.assumptions.push("recoverable-error cases on NUTS presets run with a fixed step size (the re-run step size search has the known C05 finding)".into());
     sched::install();
     let seed = args.seed ^ 0xC13;
     if let Some(r) = &args.replay {
+        if r.get("kind").and_then(|k| k.as_str()) == Some("csv_device_full") {
+            csv_device_full(report, r["seed"].as_u64().unwrap(), r["idx"].as_u64().unwrap());
+            return;
+        }
         let stallcheck = args.mode.as_deref() == Some("stallcheck");
         for _ in 0..(if stallcheck { 40 } else { 1 }) {
             run_fcase(report, &fcase_from_json(r), stallcheck);
         }
         return;
+    }
+    // a real backend whose device fails
+    for i in 0..report.size(12, 200) {
+        csv_device_full(report, seed, i);
     }
     let n = report.size(360, 40_000);
     for i in 0..n {
